@@ -168,3 +168,19 @@ chk("C18",
     "int64, float16, float32, float64} x {path, path.npz, BytesIO}: value, shape, dtype and gradient dtype round-trip through actual files.",
     "The .npz format (NumPy/zipfile C and I/O code) is trusted: stubbed by its documented contract in the logic lane, executed for real in the file lane.",
     "symbolic execution with environment stub (savez/load contract) + term identity; real-file enumeration for dtype facts", "DESIGN §3 C18")
+chk("C08",
+    "(a) one inductive step of the lock manager: the real lock_arr_writeability / _release_lock_on_arr_writeability run from a SYMBOLIC "
+    "pre-state over the universe {base B, view V of B, stand-alone S}: counters are unbounded symbolic integers, tracker membership, "
+    "writeable flags and the waiting set are symbolic booleans (the code's `is True`/`is False` tests fork), constrained by a "
+    "representation invariant; z3 discharges for {lock, force-lock, release} x {B, V, S} that the invariant is preserved, other arrays' "
+    "counters are untouched, a locked array is read-only, a natively read-only array is left alone, release decrements and, at zero, "
+    "restores the flag / parks a view on its read-only base / frees a waiting idle view. (b) Tensor-level histories, enumerated, concrete "
+    "flags: <=2 (thorough 3) of 7 graph-creating statements (user array, natively read-only array, NumPy view, view taken while locked, "
+    "out= target, matmul, tensor sharing a user array), one backward / clear_graph / del / failing op at every position, then every "
+    "release order by del or clear_graph; after every statement and at quiescence (cyclic GC off) flags are compared with a 3-valued "
+    "specification from a reference model of graph liveness that never looks at the lock tables; lock tables must be empty at the end.",
+    "(a) is per fixed universe; the induction over histories is on paper and a step counterexample is never reported without a "
+    "reproducing history of (b). (b) is enumeration, not a solver verdict. In-place tensor updates inside a history are outside (their "
+    "lock release on failure is covered by C13, untracked mode by C15).",
+    "symbolic execution from a symbolic pre-state under a representation invariant (inductive step, z3) + exhaustive concrete histories against a liveness model",
+    "DESIGN §3 C08, App. A")
